@@ -4,8 +4,8 @@ import RxProofs.Lemmas.Thr2Aio
 
 Property theorems only (model: `RxModel/Thr2Aio.lean`, soundness of the reachable-set argument:
 `RxProofs/Lemmas/Thr2Aio.lean`).  Every theorem quantifies over ALL schedules: any list of actions
-(loop-thread step / user-thread step / the clock reaching the due time / the loop being started /
-the loop moving a due timer to its ready queue), of
+(loop-thread step / user-thread step / the clock reaching the due time / the loop being started or
+stopped / the loop moving a due timer to its ready queue), of
 any length; an action that is not enabled is skipped.  The state space of one scheduled action is
 finite, so the invariant is established by computing the reachable set and checking (by `decide`, in
 the kernel) that it is closed under every action and contains only safe states.
@@ -53,7 +53,13 @@ theorem runs_on_loop_not_early (c : Cfg) (hc : c.test = .fixed) (sch : List Nat)
       obtain ⟨⟨t', l⟩, h1, h2⟩ := hs
       simp only at h2; subst h2
       exact collectStep_started c s t' l h1
-    | a + 5 => simp [step, stepL] at hs
+    | 5 =>
+      exfalso; apply hne
+      simp only [step, stepL, Option.map_eq_some_iff] at hs
+      obtain ⟨⟨t', l⟩, h1, h2⟩ := hs
+      simp only at h2; subst h2
+      split at h1 <;> cases h1; rfl
+    | a + 6 => simp [step, stepL] at hs
 
 theorem late_false (c : Cfg) (hc : c.test = .fixed) (sch : List Nat) : (run c (init c) sch).late = false := by
   have h := fixed_safe c hc sch
@@ -61,25 +67,28 @@ theorem late_false (c : Cfg) (hc : c.test = .fixed) (sch : List Nat) : (run c (i
   exact h.1
 
 /-- **disposed_then_never_starts (on the loop thread).** `dispose()` called from a callback running on the
-loop thread, either scheduler, immediate or relative: once it has returned the action never starts
-(`late` is set exactly when the action starts while `returned` holds). -/
-theorem disposed_then_never_starts_on_loop (fl : Flavour) (kind : Kind) (sch : List Nat) :
-    (run ⟨fl, kind, .onLoop, .fixed⟩ (init ⟨fl, kind, .onLoop, .fixed⟩) sch).late = false :=
+loop thread — either scheduler, immediate or relative, however the action was scheduled (on the loop, from
+another thread, before the loop started): once it has returned the action never starts (`late` is set
+exactly when the action starts while `returned` holds). -/
+theorem disposed_then_never_starts_on_loop (fl : Flavour) (kind : Kind) (sm : SMode) (sch : List Nat) :
+    (run ⟨fl, kind, sm, .onLoop, .fixed⟩ (init ⟨fl, kind, sm, .onLoop, .fixed⟩) sch).late = false :=
   late_false _ rfl sch
 
 /-- **disposed_then_never_starts (another thread, loop running, thread-safe scheduler).** With the
-cancellation marshalled onto the loop and awaited (the repaired `_on_self_loop_or_not_running`), whatever
-the interleaving of the disposing thread with the loop thread — in particular inside the two-stage
-registration of a relative schedule — once `dispose()` has returned the action never starts. -/
-theorem disposed_then_never_starts_foreign (kind : Kind) (sch : List Nat) :
-    (run ⟨.ts, kind, .foreign, .fixed⟩ (init ⟨.ts, kind, .foreign, .fixed⟩) sch).late = false :=
+cancellation marshalled onto the loop and awaited (the repaired `_on_self_loop_or_not_running`, evaluated
+at dispose time), whatever the interleaving of the disposing thread with the loop thread — in particular
+inside the two-stage registration of a relative schedule — and wherever the action was scheduled: once
+`dispose()` has returned the action never starts. -/
+theorem disposed_then_never_starts_foreign (kind : Kind) (sm : SMode) (sch : List Nat) :
+    (run ⟨.ts, kind, sm, .foreign, .fixed⟩ (init ⟨.ts, kind, sm, .foreign, .fixed⟩) sch).late = false :=
   late_false _ rfl sch
 
-/-- **disposed_then_never_starts (loop not running).** The loop is not running when `dispose()` is called
-and is not started before it has returned (the only schedules the model admits in this mode): the action
-never starts, either scheduler, immediate or relative. -/
-theorem disposed_then_never_starts_not_running (fl : Flavour) (kind : Kind) (sch : List Nat) :
-    (run ⟨fl, kind, .notRunning, .fixed⟩ (init ⟨fl, kind, .notRunning, .fixed⟩) sch).late = false :=
+/-- **disposed_then_never_starts (loop not running).** The loop is not running when `dispose()` is called —
+never started, or stopped after having run for a while (so that stage2 may or may not have registered the
+timer) — and is not (re)started before it has returned (the only schedules the model admits in this mode):
+the action never starts, either scheduler, immediate or relative. -/
+theorem disposed_then_never_starts_not_running (fl : Flavour) (kind : Kind) (sm : SMode) (sch : List Nat) :
+    (run ⟨fl, kind, sm, .notRunning, .fixed⟩ (init ⟨fl, kind, sm, .notRunning, .fixed⟩) sch).late = false :=
   late_false _ rfl sch
 
 /-- `late` means what it says: starting the action (`start`, used by the loop when it pops an uncancelled
@@ -94,18 +103,27 @@ loop runs (`except RuntimeError: return True`).  Then: the loop has popped `stag
 thread disposes (pops the only handle, finds the list empty, returns), `stage2` registers the timer, the
 clock reaches the due time, the loop runs the action — after `dispose()` returned. -/
 theorem foreign_direct_cancel_leaks :
-    (run ⟨.ts, .rel, .foreign, .asIs⟩ (init ⟨.ts, .rel, .foreign, .asIs⟩)
+    (run ⟨.ts, .rel, .foreign, .foreign, .asIs⟩ (init ⟨.ts, .rel, .foreign, .foreign, .asIs⟩)
       [1, 1, 0, 1, 1, 1, 0, 0, 2, 4, 0]).late = true := by decide
 
 /-! Non-vacuity: the action does run when nobody disposes it in time, and a timely dispose prevents it. -/
-example : (run ⟨.ts, .rel, .foreign, .fixed⟩ (init ⟨.ts, .rel, .foreign, .fixed⟩) [1, 1, 0, 0, 0, 2, 4, 0]).started = true := by
+example : (run ⟨.ts, .rel, .foreign, .foreign, .fixed⟩ (init ⟨.ts, .rel, .foreign, .foreign, .fixed⟩) [1, 1, 0, 0, 0, 2, 4, 0]).started = true := by
   decide
-example : (run ⟨.ts, .rel, .foreign, .fixed⟩ (init ⟨.ts, .rel, .foreign, .fixed⟩)
+example : (run ⟨.ts, .rel, .foreign, .foreign, .fixed⟩ (init ⟨.ts, .rel, .foreign, .foreign, .fixed⟩)
     [1, 1, 0, 1, 1, 0, 0, 0, 1, 2, 4, 0, 0]).returned = true ∧
-    (run ⟨.ts, .rel, .foreign, .fixed⟩ (init ⟨.ts, .rel, .foreign, .fixed⟩)
+    (run ⟨.ts, .rel, .foreign, .foreign, .fixed⟩ (init ⟨.ts, .rel, .foreign, .foreign, .fixed⟩)
     [1, 1, 0, 1, 1, 0, 0, 0, 1, 2, 4, 0, 0]).started = false := by decide
-example : (run ⟨.plain, .soon, .notRunning, .fixed⟩ (init ⟨.plain, .soon, .notRunning, .fixed⟩) [1, 1, 3, 0]).started = false ∧
-    (run ⟨.plain, .soon, .notRunning, .fixed⟩ (init ⟨.plain, .soon, .notRunning, .fixed⟩) [1, 1, 3, 0]).returned = true := by
+example : (run ⟨.plain, .soon, .pre, .notRunning, .fixed⟩ (init ⟨.plain, .soon, .pre, .notRunning, .fixed⟩) [1, 1, 3, 0]).started = false ∧
+    (run ⟨.plain, .soon, .pre, .notRunning, .fixed⟩ (init ⟨.plain, .soon, .pre, .notRunning, .fixed⟩) [1, 1, 3, 0]).returned = true := by
   decide
+
+-- stop / restart: scheduled from another thread, the loop turns once (stage2 registers the timer) and is
+-- stopped; dispose while stopped cancels both handles; after the restart the due timer is skipped
+example : (run ⟨.ts, .rel, .foreign, .notRunning, .fixed⟩ (init ⟨.ts, .rel, .foreign, .notRunning, .fixed⟩)
+    [1, 1, 0, 0, 0, 5, 1, 1, 1, 1, 3, 2, 4, 0]).returned = true ∧
+    (run ⟨.ts, .rel, .foreign, .notRunning, .fixed⟩ (init ⟨.ts, .rel, .foreign, .notRunning, .fixed⟩)
+    [1, 1, 0, 0, 0, 5, 1, 1, 1, 1, 3, 2, 4, 0]).started = false ∧
+    (run ⟨.ts, .rel, .foreign, .notRunning, .fixed⟩ (init ⟨.ts, .rel, .foreign, .notRunning, .fixed⟩)
+    [1, 1, 0, 0, 0, 5, 1, 1, 1, 1, 3, 2, 4, 0]).c2 = true := by decide
 
 end C33
